@@ -266,6 +266,8 @@ _PYOPS = {'+': operator.add, '-': operator.sub, '*': operator.mul, '//': operato
 
 def binop(op, a, b):
     if not (isinstance(a, Sym) or isinstance(b, Sym)):
+        if op == '%' and isinstance(a, str) and isinstance(b, (tuple, dict)) and deep_sym(b):
+            return OpaqueStr()          # old-style formatting with symbolic arguments: a message, as for f-strings
         return _PYOPS[op](a, b)
     for h in BINOP_HOOKS:
         r = h(op, a, b)
@@ -997,6 +999,14 @@ def m_set(x=()):
     return set(xs)
 
 
+def m_frozenset(x=()):
+    """frozenset(...) of values that carry symbolic members: the same solver-decided de-duplication as set(...)"""
+    xs = m_list(x)
+    if deep_sym(xs) or (xs and all(type(v).__hash__ is object.__hash__ for v in xs)):
+        return m_set(xs)
+    return frozenset(xs)
+
+
 class IdOrderedSet(set):
     """set of objects hashed by identity: python iterates such a set in address order, which differs from one
     re-execution of a path to the next; the engine replays decisions by position, so iteration here is made
@@ -1127,12 +1137,12 @@ def m_format(v, spec=''):
 
 
 MODELS.update({int: m_int, str: m_str, len: m_len, sum: m_sum, bool: m_bool, abs: m_abs, divmod: m_divmod,
-               min: m_min, max: m_max, ord: m_ord, chr: m_chr, list: m_list, tuple: m_tuple, set: m_set,
+               min: m_min, max: m_max, ord: m_ord, chr: m_chr, list: m_list, tuple: m_tuple, set: m_set, frozenset: m_frozenset,
                sorted: m_sorted, enumerate: m_enumerate, zip: m_zip, reversed: m_reversed, any: m_any, map: m_map, filter: m_filter,
                all: m_all, bytes: m_bytes, repr: m_repr, format: m_format,
                isinstance: m_isinstance, type: m_type, getattr: m_getattr, setattr: m_setattr,
                hasattr: m_hasattr, print: m_print})
-ALWAYS_MODEL.update({isinstance, type, getattr, setattr, hasattr, print, str, set, filter, map, sorted, any, all, min, max})
+ALWAYS_MODEL.update({isinstance, type, getattr, setattr, hasattr, print, str, set, frozenset, filter, map, sorted, any, all, min, max})
 
 
 # ---------------------------------------------------------------- f-strings / format
